@@ -596,10 +596,12 @@ def run_workers(spec: dict, nworkers: int, policy: Policy, *, events: bool = Fal
             rec = None
             if records is not None:
                 mid = msg.message_id
-                rec = {"thread": me, "polled": mid, "type": type(msg).__name__, "pre_seq": pre_seq, "post_poll_seq": post_poll_seq, "stage_id": getattr(msg, "stage_id", None), "task_id": getattr(msg, "task_id", None), "calls_before": sum(1 for c in w.handler_calls if c[0] == mid), "ack": ack}
+                rec = {"thread": me, "polled": mid, "type": type(msg).__name__, "pre_seq": pre_seq, "post_poll_seq": post_poll_seq, "stage_id": getattr(msg, "stage_id", None), "task_id": getattr(msg, "task_id", None), "calls_before": sum(1 for c in w.handler_calls if c[0] == mid and (len(c) < 3 or c[2] == me)), "ack": ack}
             worker_body(w, msg, ack=ack)()
             if rec is not None:
-                rec["handled"] = sum(1 for c in w.handler_calls if c[0] == rec["polled"]) > rec["calls_before"]
+                # handler entries are counted per worker thread: another worker handling the same message id at the
+                # same time must not make a delivery that was acknowledged as a duplicate look handled
+                rec["handled"] = sum(1 for c in w.handler_calls if c[0] == rec["polled"] and (len(c) < 3 or c[2] == me)) > rec["calls_before"]
                 records.append(rec)
             if not ack:
                 # the worker "forgot" the message: its visibility lock runs out (through the worker's
